@@ -279,6 +279,14 @@ def proof_obligations(prop_modules, tier, workdir):
 def cargo_build(profile):
     args = ["cargo", "build", "--offline"] + (["--release"] if profile == "release" else [])
     with Lock("cargo"):
+        # registered checks always build against /repo itself; VERIF_REPO (used only by background
+        # validation runs on a snapshot) redirects the path dependency of the harness
+        toml = os.path.join(HARNESS, "Cargo.toml")
+        txt = open(toml).read()
+        want = 'constriction = { path = "%s" }' % REPO
+        cur = re.search(r'constriction = \{ path = "[^"]*" \}', txt)
+        if cur and cur.group(0) != want:
+            open(toml, "w").write(txt.replace(cur.group(0), want))
         lock = os.path.join(HARNESS, "Cargo.lock")
         if not os.path.exists(lock):
             import shutil
@@ -291,42 +299,78 @@ def cargo_build(profile):
 
 
 def _run_harness_shard(binary, path, n_lines, per_case_timeout):
-    """Runs one shard; restarts after an abort or hang. Returns {id: output-list}."""
+    """Runs one shard with a per-case watchdog; restarts after an abort or hang.
+    Returns {id: output-list}."""
+    import selectors
     res = {}
     skip = 0
     ids = [l.split()[1] for l in open(path) if l.strip()]
     while skip < n_lines:
-        budget = 20 + per_case_timeout * (n_lines - skip)
-        try:
-            p = subprocess.run([binary, path, str(skip)], stdout=subprocess.PIPE, stderr=subprocess.DEVNULL,
-                               timeout=budget, text=True)
-            out, timed_out = p.stdout, False
-        except subprocess.TimeoutExpired as ex:
-            out = ex.stdout if isinstance(ex.stdout, str) else (ex.stdout or b"").decode()
-            timed_out = True
+        p = subprocess.Popen([binary, path, str(skip)], stdout=subprocess.PIPE, stderr=subprocess.DEVNULL)
+        sel = selectors.DefaultSelector()
+        sel.register(p.stdout, selectors.EVENT_READ)
+        os.set_blocking(p.stdout.fileno(), False)
+        buf = b""
         announced = None
-        for line in out.split("\n"):
-            if line.startswith("# "):
-                announced = line[2:].strip()
-            elif line.strip():
-                parts = line.split()
-                if parts[1:] == ["PANIC"]:
-                    res[parts[0]] = [PANIC]
-                elif parts[1:] == ["PANIC_ARITH"]:
-                    res[parts[0]] = [PANIC_ARITH]
-                else:
-                    res[parts[0]] = [int(x) for x in parts[1:]]
-        done = len([i for i in ids[skip:] if i in res])
-        if skip + done >= n_lines:
+        done_here = 0
+        timed_out = False
+        last_progress = time.time()
+        while True:
+            ev = sel.select(timeout=1.0)
+            chunk = b""
+            if ev:
+                try:
+                    chunk = p.stdout.read() or b""
+                except BlockingIOError:
+                    chunk = b""
+                if chunk:
+                    buf += chunk
+                    last_progress = time.time()
+            while b"\n" in buf:
+                line, buf = buf.split(b"\n", 1)
+                line = line.decode("utf8", "replace")
+                if line.startswith("# "):
+                    announced = line[2:].strip()
+                    last_progress = time.time()
+                elif line.strip():
+                    parts = line.split()
+                    if parts[1:] == ["PANIC"]:
+                        res[parts[0]] = [PANIC]
+                    elif parts[1:] == ["PANIC_ARITH"]:
+                        res[parts[0]] = [PANIC_ARITH]
+                    else:
+                        res[parts[0]] = [int(x) for x in parts[1:]]
+                    done_here += 1
+            if p.poll() is not None and not chunk:
+                # drain what is left
+                try:
+                    rest = p.stdout.read() or b""
+                except BlockingIOError:
+                    rest = b""
+                if rest:
+                    buf += rest
+                    continue
+                break
+            if time.time() - last_progress > per_case_timeout:
+                timed_out = True
+                p.kill()
+                p.wait()
+                break
+        sel.close()
+        try:
+            p.stdout.close()
+        except Exception:
+            pass
+        if skip + done_here >= n_lines:
             break
-        # the announced case did not produce a result line: abort or hang
-        bad = ids[skip + done]
+        # the case after the last completed one did not produce a result line: abort or hang
+        bad = ids[skip + done_here]
         res[bad] = [TIMEOUT] if timed_out else [ABORT]
-        skip = skip + done + 1
+        skip = skip + done_here + 1
     return res
 
 
-def run_harness(binary, cases, workdir, tag, per_case_timeout=5):
+def run_harness(binary, cases, workdir, tag, per_case_timeout=20):
     """cases: list of (family, id, [ints]).  Returns {id: [ints]}."""
     from concurrent.futures import ThreadPoolExecutor
     os.makedirs(workdir, exist_ok=True)
